@@ -34,6 +34,13 @@ Scope decisions (review round):
     mask, same argument handling; 1-sample axis -> 0.
   * a map with a single row or column: the nested trapezoid integral is 0 (what the code returns); the full-band
     bound then holds with equality (every sample is an outermost one): theorem full_band_total_measured_all.
+  * DTYPES and LAYOUTS (round 3): a boolean / integer array is a legitimate "user array" window (a 0/1 aperture as a rect
+    window, 8-bit weights) and a legitimate real height map (raw counts); memory layout is not a value.  The family
+    bool / uint8 / int8 / int16 / int32 / int64 / float32 / float64 (values using the RANGE of the type) x C / Fortran /
+    transposed / strided / negative-stride goes through psd(), make_window(), Interferogram.psd / bandlimited_rms /
+    total_integrated_scatter and (r and psd arrays) bandlimited_rms(); every right-hand side is computed in float64 from
+    the VALUES; each call is repeated with the same argument objects (own check + harness.common.pure_call) and compared
+    with the call on C-contiguous copies.  Found: narrow integer windows / PSD arrays wrapped around -> fixed.
 """
 import contextlib
 import itertools
@@ -47,7 +54,11 @@ RULE = ('psd: every shape (m,n) with 1<=m,n<=S (S=8 quick, 12 thorough; all pari
         'crafted for both automatic branches: generic data / zero corners on >=26-sample axes / all-zero small '
         'maps), the names hann/hanning/welch in 7+4 capitalisations in rotation (positional and keyword), user arrays '
         '(ones, random positive); variants (real code): every spelling of every name, welch with alpha in {1,2,2.5,6,8} '
-        'handed over as an array, signed and float32 user windows, float32 / int64 / int32 maps, float32 / int dx; peak: '
+        'handed over as an array, signed and float32 user windows, float32 / int64 / int32 maps, float32 / int dx; dtype x layout: '
+        'maps AND user windows of bool/uint8/int8/int16/int32/int64/float32/float64 using the range of the type, in C / Fortran / '
+        'transposed / strided / negative-stride layouts (all 64 dtype pairs per shape, all 25 layout pairs), named and automatic windows '
+        'on every map dtype, each call repeated with the same objects; bandraw: r (6 dtypes) and psd (8 dtypes) arrays x 5 layouts straight '
+        'into bandlimited_rms; methods on Interferogram data of every dtype / layout; peak: '
         'on-grid cosine of every admissible integer frequency pair; bands: edges drawn strictly between distinct sample '
         'radii, plus an edge exactly on a sample radius, as frequencies, as periods, one edge of each kind, positionally, '
         'and no edge at all, float32 r/psd, under both NumPy configurations; 1-D r/psd of 1..14 (40) samples on |f|, signed '
@@ -1943,7 +1954,11 @@ MANIFEST_ENTRY = {
              'bandlimited_rms 2-D and 1-D (both NumPy configurations), rescale; property predicates on the real outputs incl. '
              'spectral peak location of on-grid cosines on the returned axes, window names in every capitalisation, alpha, dtypes, '
              'band edges in every form, aperture -> fill(0) through the methods on >= 26 samples, TIS for array angles, purity of '
-             'psd/bandlimited_rms/render, histories on ONE Interferogram.'),
+             'psd/bandlimited_rms/render, histories on ONE Interferogram; the dtype x layout family (maps, user windows, r / psd arrays of '
+             'bool / (u)int8 / int16 / int32 / int64 / float32 / float64 in C / F / transposed / strided / negative-stride layouts through '
+             'every entry point, right-hand sides in float64 from the values, repeated calls with the same objects).  Translated facts '
+             'psdArithmeticInFloatingPoint / brmsWorksInFloatingPoint: the sum of squares, the product height*window and the integrated '
+             'copy pass a conversion to a floating type (dtype conversions are looked through for the VALUE theorems).'),
     'note': ('Partial in these respects: theorems are over R/C, not floats; scipy.fft.fft2 = DFT sum, fftshift/ifftshift/'
              'fftfreq index maps and np.trapezoid are trusted primitives (the index maps are compared exhaustively each run); '
              'window VALUES (hann/welch formulas, alpha, the 2% corner heuristic) are deliberately outside the property — only that '
